@@ -2,7 +2,9 @@ package props
 
 import (
 	"bytes"
+	"encoding"
 	"encoding/hex"
+	"encoding/json"
 	"math/big"
 	"strings"
 	"testing"
@@ -18,9 +20,10 @@ import (
 // the receiver unchanged.
 
 type caseC03 struct {
-	Data    string  `json:"data"`           // hex of the byte string (for "coordinates": x||y, 64 bytes)
-	Decoder string  `json:"decoder"`        // decode | compressed | uncompressed | coordinates | hex | unmarshal
-	Text    string  `json:"text,omitempty"` // literal string for the hex decoder
+	Data    string  `json:"data"`               // hex of the byte string (for "coordinates": x||y, 64 bytes)
+	Decoder string  `json:"decoder"`            // decode | compressed | uncompressed | coordinates | hex | unmarshal
+	Text    string  `json:"text,omitempty"`     // literal string for the hex decoder
+	TextHex string  `json:"text_hex,omitempty"` // the same as hex of the raw bytes (strings that are not valid UTF-8 do not survive JSON)
 	Prior   pt.Spec `json:"prior"`
 	Kind    string  `json:"kind"` // generator class, informational
 	Nil     bool    `json:"nilin,omitempty"`
@@ -261,6 +264,9 @@ var c03 = gen.Register(&gen.Check[caseC03]{
 				}
 			}
 			c.Text = txt
+			if k := gen.Pick(t, "textDecoder", 6); k < 2 {
+				c.Decoder = []string{"text", "json"}[k]
+			}
 		}
 		if len(data) == 0 {
 			c.Nil = rapid.Bool().Draw(t, "nil")
@@ -287,10 +293,28 @@ var c03 = gen.Register(&gen.Check[caseC03]{
 		g := ref.G()
 		mk := func(d []byte, dec, kind string) {
 			c := caseC03{Data: hex.EncodeToString(d), Decoder: dec, Prior: prior, Kind: kind}
-			if dec == "hex" {
+			if isTextDec(dec) {
 				c.Text = c.Data
 			}
 			out = append(out, c)
+		}
+		// every byte value at a few positions of a valid hex string (what a hand-rolled hex digit test lets through)
+		for _, dec := range []string{"hex", "text"} {
+			txt := hex.EncodeToString(ref.Compress(g))
+			for _, pos := range []int{0, 1, 2, 33, len(txt) - 2, len(txt) - 1} {
+				for b := 0; b < 256; b++ {
+					if byte(b) == txt[pos] {
+						continue
+					}
+					mut := txt[:pos] + string([]byte{byte(b)}) + txt[pos+1:]
+					c := caseC03{Decoder: dec, Prior: prior, Kind: "hex-byte", TextHex: hex.EncodeToString([]byte(mut))}
+					if isHex(mut) {
+						d, _ := hex.DecodeString(mut)
+						c.Data = hex.EncodeToString(d)
+					}
+					out = append(out, c)
+				}
+			}
 		}
 		// coordinates aimed at the constants found in the sources of the tree under test
 		for i, v := range gen.DictFixed(ref.P, 2*gen.DictStride()) {
@@ -302,11 +326,11 @@ var c03 = gen.Register(&gen.Check[caseC03]{
 			out = append(out, caseC03{Data: hex.EncodeToString(data), Decoder: []string{"decode", "unmarshal", "compressed"}[i%3], Prior: prior, Kind: kind})
 		}
 		// very long inputs whose length is congruent to a valid length modulo 2^8 / 2^16 (length fields that get truncated)
-		for _, dec := range []string{"decode", "unmarshal", "hex"} {
+		for _, dec := range []string{"decode", "unmarshal", "hex", "text", "json"} {
 			for _, head := range [][]byte{{0}, ref.Compress(g), ref.Uncompressed(g)} {
 				for _, m := range []int{256, 65536, 131072} {
 					c := caseC03{Data: hex.EncodeToString(head), Decoder: dec, Prior: prior, Kind: "length", Pad: m}
-					if dec == "hex" {
+					if isTextDec(dec) {
 						c.Text = hex.EncodeToString(append(append([]byte{}, head...), make([]byte, m)...))
 						c.Pad = 0
 					}
@@ -314,14 +338,14 @@ var c03 = gen.Register(&gen.Check[caseC03]{
 				}
 			}
 		}
-		for _, dec := range []string{"decode", "hex", "unmarshal"} {
+		for _, dec := range []string{"decode", "hex", "unmarshal", "text", "json"} {
 			c := caseC03{Data: "00", Decoder: dec, Prior: prior, Kind: "identity", ZeroRcv: true}
-			if dec == "hex" {
+			if isTextDec(dec) {
 				c.Text = "00"
 			}
 			out = append(out, c)
 		}
-		for _, dec := range []string{"decode", "compressed", "uncompressed", "hex", "unmarshal"} {
+		for _, dec := range []string{"decode", "compressed", "uncompressed", "hex", "unmarshal", "text", "json"} {
 			mk(ref.Compress(g), dec, "valid-comp")
 			mk(ref.Uncompressed(g), dec, "valid-uncomp")
 			mk([]byte{0}, dec, "identity")
@@ -360,7 +384,12 @@ var c03 = gen.Register(&gen.Check[caseC03]{
 
 func TestC03Decoders(t *testing.T) { c03.Execute(t) }
 
+func isTextDec(dec string) bool { return dec == "hex" || dec == "text" || dec == "json" }
+
 func c03Once(c caseC03, o *gen.Obs) error {
+	if c.TextHex != "" {
+		c.Text = string(gen.HexBytes(c.TextHex))
+	}
 	prior, err := pt.Build(c.Prior)
 	if err != nil {
 		o.Class("skipped:builder-error")
@@ -388,7 +417,7 @@ func c03Once(c caseC03, o *gen.Obs) error {
 		switch c.Decoder {
 		case "coordinates":
 			data = append(append([]byte{}, x...), y...)
-		case "hex":
+		case "hex", "text", "json":
 			c.Text = hex.EncodeToString(data)
 		case "compressed":
 			if len(data) != 33 {
@@ -404,7 +433,7 @@ func c03Once(c caseC03, o *gen.Obs) error {
 		data = append(data, make([]byte, c.Pad)...)
 		o.Class("very-long-input")
 	}
-	if c.Pre > 0 && c.Decoder != "hex" {
+	if c.Pre > 0 && c.Decoder != "hex" && c.Decoder != "text" && c.Decoder != "json" {
 		lay := gen.Layout{Pre: c.Pre, Post: 3, Fill: c.Pre % gen.NumFills}
 		if c.Tail {
 			lay.Tail, lay.Post = true, 0
@@ -450,7 +479,7 @@ func c03Once(c caseC03, o *gen.Obs) error {
 		}
 		want, reason = ref.DecodeCoordinates(data[:32], data[32:])
 		derr = e.DecodeCoordinates([32]byte(data[:32]), [32]byte(data[32:]))
-	case "hex":
+	case "hex", "text", "json":
 		if isHex(c.Text) {
 			data, _ = hex.DecodeString(c.Text)
 			input = append([]byte(nil), data...)
@@ -458,7 +487,25 @@ func c03Once(c caseC03, o *gen.Obs) error {
 		} else {
 			reason = "hex"
 		}
-		derr = e.DecodeHex(c.Text)
+		switch c.Decoder {
+		case "hex":
+			derr = e.DecodeHex(c.Text)
+		default:
+			// whatever text decoder the type implements (encoding.TextUnmarshaler: what encoding/json, encoding/xml, flag.TextVar
+			// use) is a hex decoder of this package too: same acceptance, same value, same treatment of the receiver. The unchanged
+			// tree implements none: the case is then skipped.
+			tu, ok := any(e).(encoding.TextUnmarshaler)
+			if !ok {
+				o.Class("skipped:no-text-unmarshaler")
+				return nil
+			}
+			o.Class("text-unmarshaler")
+			if c.Decoder == "text" {
+				derr = tu.UnmarshalText([]byte(c.Text))
+			} else if q, qerr := json.Marshal(c.Text); qerr == nil {
+				derr = json.Unmarshal(q, e)
+			}
+		}
 	default:
 		panic("decoder")
 	}
@@ -483,7 +530,7 @@ func c03Once(c caseC03, o *gen.Obs) error {
 		return nil
 	}
 	if derr != nil {
-		if c.Decoder == "hex" && c.Text != strings.ToLower(c.Text) {
+		if (c.Decoder == "hex" || c.Decoder == "text" || c.Decoder == "json") && c.Text != strings.ToLower(c.Text) {
 			o.Class("hex-uppercase-rejected")
 			return nil // whether upper-case hex digits are accepted is not part of the statement
 		}
